@@ -60,35 +60,25 @@ theorem tie_alloc_guards :
 
 /-! ### who releases / adds what -/
 
-/-- the object an allocation variable is parsed from -/
-def srcObj (sources : List String) (v : String) : String :=
-  match sources.find? (fun s => s.startsWith (v ++ " <- ")) with
-  | some s => (s.drop (v.length + 4)).takeWhile (· != '.')
-  | none => "?"
+/-- the event model's reading of an op on the generic pair below: whose allocation, which pod argument, add? -/
+def modelShape : Op → String × String × Bool
+  | .remove _ al => (if al = [(0, [some 1])] then "oldPod" else "pod", if al = [(0, [some 1])] then "oldPod" else "pod", false)
+  | .add _ al => (if al = [(0, [some 1])] then "oldPod" else "pod", if al = [(0, [some 1])] then "oldPod" else "pod", true)
+  | .refresh _ => ("?", "?", false)
 
-/-- an `updateCacheUsed(<var>, <pod>, <add>)` call as (object the allocation comes from, add?) -/
-def callShape (sources : List String) (args : String) : String × Bool :=
-  match args.splitOn ", " with
-  | [v, _, b] => (srcObj sources v, b == "true")
-  | _ => ("?", false)
-
-/-- the event model's reading of the same: updatePodOps on a generic assigned / live pair releases the OLD object's
-    allocation, then adds the NEW object's -/
-def modelShape : Op → String × Bool
-  | .remove _ al => (if al = [(0, [some 1])] then "oldPod" else "pod", false)
-  | .add _ al => (if al = [(0, [some 1])] then "oldPod" else "pod", true)
-  | .refresh _ => ("?", false)
-
+/-- updatePod's two updateCacheUsed calls = updatePodOps on an assigned, live (old, new) pair: release the allocation
+    parsed from the OLD object (under the old object's name), then add the one parsed from the NEW object -/
 theorem tie_update_pod :
-    C07.updatePod_updateCacheUsed.map (callShape C07.updatePod_allocSources) =
+    C07.updatePod_shapes =
       (updatePodOps 7 (some { assigned := true, terminated := false, alloc := some [(0, [some 1])] })
         { assigned := true, terminated := false, alloc := some [(1, [some 2])] }).map modelShape ∧
     C07.updatePod_releaseGuard = "oldPod != nil && oldPod.Spec.NodeName != \"\" && len(oldAllocations) > 0" ∧
     -- unassigned new object ⇒ deletePod(oldPod); terminated ⇒ deletePod(pod), in this source order
     C07.updatePod_deletePod = ["oldPod", "pod"] := by decide
 
+/-- deletePod subtracts the allocation parsed from the object it is given -/
 theorem tie_delete_pod :
-    C07.deletePod_updateCacheUsed.map (callShape C07.deletePod_allocSources) =
+    C07.deletePod_shapes =
       (deletePodOps 7 { assigned := true, terminated := false, alloc := some [(1, [some 2])] }).map modelShape := by
   decide
 
